@@ -348,7 +348,24 @@ func (g *FnGen) run() {
 	for _, pc := range g.prog.sortedContracts() {
 		for _, gv := range pc.Ghosts {
 			env := &Env{g: g, pkg: g.prog.typesPkg(pc.PkgPath)}
-			t := env.resolveType(gv.Type)
+			if env.pkg == nil {
+				continue // the declaring package is not loaded for this property: its ghosts cannot be mentioned here
+			}
+			t, okT := func() (t types.Type, ok bool) {
+				defer func() {
+					if r := recover(); r != nil {
+						if _, isU := r.(UnsupportedErr); isU {
+							ok = false
+							return
+						}
+						panic(r)
+					}
+				}()
+				return env.resolveType(gv.Type), true
+			}()
+			if !okT {
+				continue
+			}
 			fam := "Ghost_" + sanitize(gv.Name)
 			g.ghost[gv.Name] = fam
 			gs := g.sortOf(t)
